@@ -19,7 +19,7 @@ func init() {
 		Prop:   "C16",
 		Run:    run,
 		Replay: replay,
-		Rule: "E1 over (type x string): types are compiled from YANG text by the real compiler (every integer width signed/unsigned without range, with one range, with multi-part ranges touching the type bounds; decimal64 with 1, 2, 9, 18 fraction digits with and without ranges; strings with lengths and 0-2 patterns; enumeration; boolean; empty; identityref over a two-module hierarchy; unions nested two deep; custom error-message/error-app-tag) and Type.Validate is called on every probe string: every bound and bound +-1,2 units in canonical, '+'-signed, zero-padded and trailing-zero spellings, 18-20 digit values, lexical near misses, and for strings every string of 0-4 characters over {a,b,c,1,e-acute,U+1D11E}. " +
+		Rule: "E1 over (type x string): types are compiled from YANG text by the real compiler (every integer width signed/unsigned without range, with one range, with multi-part ranges touching the type bounds; decimal64 with every fraction-digits value 1..18 with and without ranges; strings with lengths and 0-2 patterns; enumeration; boolean; empty; identityref over a two-module hierarchy; unions nested two deep; custom error-message/error-app-tag) and Type.Validate is called on every probe string: every bound and bound +-1,2 units in canonical, '+'-signed, zero-padded and trailing-zero spellings, 18-20 digit values, lexical near misses, and for strings every string of 0-4 characters over {a,b,c,1,e-acute,U+1D11E}. " +
 			"The reference decides membership exactly with math/big and character counts. On rejection the error must carry the path and the custom message/app-tag when defined. Non-trivial = a probe within 2 units of a bound, a multi-byte string, or a union/identityref probe.",
 		Bound: map[string]string{
 			"quick":    "about 110 types x their probe sets",
@@ -63,6 +63,9 @@ func kindKey(s yangval.Spec) string {
 		k = fmt.Sprintf("%s%d", s.Kind, s.Bits)
 	case "decimal64":
 		k = fmt.Sprintf("decimal64/%d", s.Fd)
+		if s.Fd >= 16 {
+			k = "decimal64/fd>=16" // 17 or more significant digits within a small range: one class
+		}
 	}
 	if s.Ranges != nil {
 		k += "+range"
@@ -200,7 +203,7 @@ func specs(quick bool) []yangval.Spec {
 			}
 		}
 	}
-	for _, fd := range []int{1, 2, 9, 18} {
+	for fd := 1; fd <= 18; fd++ {
 		base := yangval.Spec{Kind: "decimal64", Fd: fd}
 		out = append(out, base)
 		hi := "5.5"
